@@ -124,3 +124,102 @@ example : sigHead plainFn = "func ToDst(dst *D, src *S, n int) " ∧
     sigTail plainFn = "(err error) {\n" := by decide
 
 end Convergen.Props.C08
+
+namespace Convergen.Props.C08
+open Convergen
+
+/-! ## no name is declared twice in a generated signature (repair of the `redeclared` finding) -/
+
+theorem firstDuplicate_none (seen l : List String) (h : firstDuplicate seen l = none) :
+    ∀ n ∈ l, n ≠ "_" → n ∉ seen := by
+  induction l generalizing seen with
+  | nil => intro n hn; cases hn
+  | cons a rest ih =>
+    intro n hn hne
+    simp only [firstDuplicate] at h
+    split at h
+    · cases h
+    · rename_i hc
+      rcases List.mem_cons.mp hn with rfl | hn'
+      · intro hmem
+        apply hc
+        simp [hne, hmem]
+      · have := ih (a :: seen) h n hn' hne
+        intro hmem
+        exact this (List.mem_cons_of_mem _ hmem)
+
+/-- if `firstDuplicate` finds nothing, the names other than `_` are pairwise distinct -/
+theorem firstDuplicate_none_nodup (seen l : List String) (h : firstDuplicate seen l = none) :
+    (l.filter (· != "_")).Nodup := by
+  induction l generalizing seen with
+  | nil => exact List.nodup_nil
+  | cons a rest ih =>
+    simp only [firstDuplicate] at h
+    split at h
+    · cases h
+    · have hrest := ih (a :: seen) h
+      by_cases ha : a = "_"
+      · simp [ha, hrest]
+      · have : (a != "_") = true := by simpa using ha
+        simp only [List.filter_cons, this, ↓reduceIte, List.nodup_cons]
+        refine ⟨?_, hrest⟩
+        intro hmem
+        have hmem' : a ∈ rest := (List.mem_filter.mp hmem).1
+        exact firstDuplicate_none (a :: seen) rest h a hmem' ha List.mem_cons_self
+
+example : firstDuplicate [] ["x1", "d", "x0", "x1"] = some "x1" ∧ firstDuplicate [] ["src", "dst", "_", "_", "err"] = none := by
+  decide
+
+end Convergen.Props.C08
+
+namespace Convergen.Props.C08
+open Convergen
+
+/-- the names a generated function declares in its outermost scope -/
+def declaredNames (f : Function) : List String :=
+  [f.src.name, f.dst.name] ++ f.additionalArgs.map (·.name) ++ (if f.retError then ["err"] else [])
+
+theorem buildFunction_fn (env : Env) (eng : Engine) (m : MethodEntry) (src dst : ParamVar) (additional : List ParamVar)
+    (srcVar dstVar : Var) (argVars : List Var) (b : Built)
+    (h : buildFunction env eng m src dst additional srcVar dstVar argVars = .ok b) (hl : b.lateError = none) :
+    declaredNames b.fn = scopeNames srcVar dstVar argVars (m.retError env) := by
+  unfold buildFunction at h
+  simp only [bind, Outcome.bind, pure] at h
+  split at h
+  · split at h
+    · cases h; simp at hl
+    · cases h
+    · split at h
+      · cases h; simp at hl
+      · cases h
+      · cases h; rfl
+  · cases h
+  · cases h
+
+/-- **every function `CreateFunction` hands to the generator declares each name once** (`_` aside) -/
+theorem checked_names_distinct (env : Env) (eng : Engine) (m : MethodEntry) (src dst : ParamVar)
+    (additional : List ParamVar) (srcVar dstVar : Var) (argVars : List Var) (b : Built)
+    (h : checkNamesAndBuild env eng m src dst additional srcVar dstVar argVars = .ok b) (hl : b.lateError = none) :
+    ((declaredNames b.fn).filter (· != "_")).Nodup := by
+  unfold checkNamesAndBuild at h
+  split at h
+  · cases h
+  · rename_i hnone
+    rw [buildFunction_fn env eng m src dst additional srcVar dstVar argVars b h hl]
+    exact firstDuplicate_none_nodup [] _ hnone
+
+/-- and `CreateFunction` reaches the generator only through that check -/
+theorem createFunction_through_check (env : Env) (eng : Engine) (m : MethodEntry) (b : Built)
+    (h : createFunction env eng m = .ok b) :
+    ∃ src dst additional srcVar dstVar argVars,
+      checkNamesAndBuild env eng m src dst additional srcVar dstVar argVars = .ok b := by
+  unfold createFunction at h
+  split at h
+  · simp only at h
+    repeat' (split at h)
+    all_goals first
+      | cases h
+      | exact ⟨_, _, _, _, _, _, h⟩
+  · cases h
+
+end Convergen.Props.C08
